@@ -373,6 +373,7 @@ func c18Admin(c *core.Ctx) {
 	escapes, external := a.references()
 	a.lockRules(rel, escapes, external)
 	a.versionRules(rel, escapes)
+	a.exactKeyRules()
 }
 
 // references classifies, module-wide, how the functions of pkg/api are referenced: escapes =
@@ -1451,4 +1452,89 @@ func (a *c18apiCtx) handlerRules(s *c18sum, method string) {
 					"update": sprintf("%d exit state(s) with another kind all answered 400", n)}[role], whyS, witness(badS)...)
 		}
 	}
+}
+
+// ---- R-C18-5
+
+// c18prefixOp reports whether a Cluster call is a prefix (range) operation: a *Prefix method, or
+// GetWithOp with the OpPrefix option.
+func c18prefixOp(info *types.Info, d *c18direct) bool {
+	if strings.HasSuffix(d.method, "Prefix") {
+		return true
+	}
+	if d.method != "GetWithOp" {
+		return false
+	}
+	for _, arg := range d.call.Args[1:] {
+		found := false
+		ast.Inspect(arg, func(n ast.Node) bool {
+			if id, ok := n.(*ast.Ident); ok {
+				if k, ok := info.Uses[id].(*types.Const); ok && k.Pkg() != nil && k.Pkg().Path() == Mod+c18cl && k.Name() == "OpPrefix" {
+					found = true
+				}
+			}
+			return true
+		})
+		if found {
+			return true
+		}
+	}
+	return false
+}
+
+// exactKeyRules: the handlers address one object (one version counter) by one key. Object
+// names are arbitrary strings and the per-object key has no terminator, so a range
+// operation on it also covers every object whose name merely starts with the name.
+func (a *c18apiCtx) exactKeyRules() {
+	c := a.c
+	info := a.pkg.TypesInfo
+	var ds []*c18direct
+	for _, d := range a.direct {
+		ds = append(ds, d)
+	}
+	sort.Slice(ds, func(i, j int) bool { return ds[i].call.Pos() < ds[j].call.Pos() })
+	n := 0
+	for _, d := range ds {
+		if d.kind != "object" && d.kind != "version" {
+			continue
+		}
+		var single, prefix []string
+		for _, r := range d.roles {
+			if strings.HasSuffix(r, "Prefix") {
+				prefix = append(prefix, r)
+			} else if strings.HasPrefix(r, "Config") {
+				single = append(single, r)
+			}
+		}
+		if len(single) == 0 || len(prefix) > 0 {
+			continue // listing over a prefix key of the layout
+		}
+		n++
+		var fd *ast.FuncDecl
+		for _, x := range a.decls {
+			if contains(x, d.call) {
+				fd = x
+			}
+		}
+		if fd == nil {
+			continue
+		}
+		rw := "read"
+		if d.write {
+			rw = "write"
+		}
+		cons := declName(a.pkg, fd) + "|exact-key " + rw + " on " + strings.Join(single, "+")
+		what := "object"
+		if d.kind == "version" {
+			what = "version counter"
+		}
+		why := "the key has no terminator and names are not prefix-free, so the operation also covers every stored object whose name merely starts with this name — one successful request removes / reads several objects while the existence check, the 409/404 decision and the single version step of the handlers are made for exactly one key"
+		if d.kind == "version" {
+			why = "every key that merely starts with the counter's key is read / written with it, so the version the handlers increment and report is no longer the value of one key"
+		}
+		c.Check(!c18prefixOp(info, d), "R-C18-5", cons, pos(c, d.call),
+			"cluster."+d.method+" addresses exactly the key of one "+what,
+			sprintf("cluster.%s is a range operation applied to the key of a single %s (Layout.%s): %s", d.method, what, strings.Join(single, "+"), why))
+	}
+	c.RequireCount("R-C18-5", "cluster operations on single-object / version keys in pkg/api", n, 4)
 }
